@@ -25,6 +25,17 @@ EXPECTED_DEVIATION_LAWS = {"DistDefinedOnlyWhenMaybeSub", "DistZeroOnIdentity", 
                            "OfferedCompatible", "ProvidersAgree"}
 
 
+def make_threadsafe(ctx: Ctx) -> None:
+    """Serialise the bookkeeping of TLC runs: independent TLC runs of one check overlap in time."""
+    import threading
+    lock, orig = threading.Lock(), ctx._account
+
+    def locked(*a, **k):
+        with lock:
+            orig(*a, **k)
+    ctx._account = locked
+
+
 def design_runs(ctx: Ctx, cfgs: list[str], expect_violation: tuple[str, ...] = ()) -> dict:
     """Independent TLC runs of the design model TypeSystem.tla, concurrently (own work dirs).
     Same contract as ctx.design: a violated invariant is a MACHINERY error unless the cfg is
@@ -246,9 +257,12 @@ def run(ctx: Ctx) -> None:
                        "required for chains whose middle type contains no Any, zero distance on identity for "
                        "types that contain no Any (Any is at generator_any_distance from itself by design)",
                        "numeric tower = reflexive transitive closure of issubclass + bool<:int<:float<:complex"]
+    from concurrent.futures import ThreadPoolExecutor
+    make_threadsafe(ctx)
+    _ = ctx.work            # create the scratch directory before any thread needs it
     main_cfg = "TypeSystem.cfg" if ctx.quick else "TypeSystem_thorough.cfg"
-    res = design_runs(ctx, [main_cfg, "TypeSystem_dev_static.cfg"])
-    check_deviation_model(ctx, res["TypeSystem_dev_static.cfg"])
+    pool = ThreadPoolExecutor(max_workers=1)
+    design = pool.submit(design_runs, ctx, [main_cfg, "TypeSystem_dev_static.cfg"])   # overlaps with the replay
     jobs = hierarchy_cases(ctx)
     traces, behs = run_cases(ctx, jobs)
     ctx.exhaustive = True
@@ -267,6 +281,8 @@ def run(ctx: Ctx) -> None:
     ctx.notes["hierarchies_checked"] = len(traces)
     ctx.notes["universe_sizes"] = sorted({len(t["ev"][0]["types"]) for t in traces})
     judge(ctx, traces, behs, TRACE_CFG, signature)
+    check_deviation_model(ctx, design.result()["TypeSystem_dev_static.cfg"])
+    pool.shutdown()
     for t in traces[:2]:
         ev = t["ev"][0]
         ctx.sample({"user_edges": [e for e in ev["edges"] if e[1] in ev["user"]],
